@@ -9,6 +9,7 @@ CONSTANTS K = 1
   NH = 4
   Depth = 4
   Acts <- ActsBool
+  LeafProps <- NoProps
   Emit = TRUE
 INIT Init
 NEXT Next
